@@ -72,7 +72,7 @@ def _enumerated(subject):
 
 
 def shards(tier):
-    n = 150 if tier == "quick" else 4000
+    n = 400 if tier == "quick" else 6000
     mx = 60 if tier == "quick" else 200
     out = []
     for s in gc.SUBJECTS:
